@@ -57,8 +57,12 @@ class Run:
         counts = {}
         for o in self.obs:
             counts[o["rule"]] = counts.get(o["rule"], 0) + 1
+        known = {e["key"] for e in load_known() if e.get("property") == self.prop and e.get("status") == "known"}
+        failing = {o["rule"] for o in self.obs if not o["ok"] and o["key"] not in known}
         for rule, n in self.floors.items():
-            if counts.get(rule, 0) < n:
+            # the floor guards a *pass* against vacuity; a rule that already reports a concrete failed obligation skips the
+            # obligations that depend on it, and the report stands
+            if counts.get(rule, 0) < n and rule not in failing:
                 raise AnalysisError("rule %s matched %d instances, below its floor %d (vacuity guard)"
                                     % (rule, counts.get(rule, 0), n))
         return counts
